@@ -2,6 +2,7 @@ import Driver.Util
 import BitcaskVerif.Store.Codec
 import BitcaskVerif.Store.Spec
 import BitcaskVerif.Store.FaultModel
+import BitcaskVerif.Store.MergeFault
 
 namespace Driver
 open Store
@@ -34,6 +35,7 @@ structure SS where
   keys : List Key := []
   known : List Key := []     -- every key ever written (merge iteration covers these)
   fault : Option Store.Tr.Fault := none   -- fault that hits the next put / del (C20)
+  mergeFault : Option (Nat × Nat) := none  -- (index of the failing call, bytes of a failing append that reached the file): hits the next merge pass (C20)
 
 def fname (f : FName) : String :=
   (match f.kind with | .data => "d" | .hint => "h") ++ toString f.id
@@ -181,6 +183,10 @@ def storeStep (ss : SS) (toks : List String) : Option (SS × String) :=
     let (s, calls) := openDisk ss.st.disk
     some (addCalls { ss with st := s, opened := true } calls, "ok" ++ traceSuffix ss calls)
   | ["close"] => some ({ ss with opened := false }, "ok" ++ traceSuffix ss [])
+  | ["mfault", "merge", j, torn] =>
+    match j.toNat?, torn.toNat? with
+    | some j, some t => some ({ ss with mergeFault := some (j, t) }, "ok")
+    | _, _ => none
   | ["mfault", kind] =>
     -- the next put / del fails in the given way (kinds as in Store/FaultModel.lean)
     let f : Option Store.Tr.Fault := match kind.splitOn ":" with
@@ -221,13 +227,20 @@ def storeStep (ss : SS) (toks : List String) : Option (SS × String) :=
     let order := obs ++ ss.known.filter (fun k => !obs.contains k)
     let sel := selectFiles ss.cfg ss.st
     let before := ss.st
-    let (s, calls) := merge ss.cfg ss.st order
+    let (s, calls, failed) : St × List Call × Bool := match ss.mergeFault with
+      | some (j, torn) =>
+        -- the pass in which call j fails (`Store.mergeF true`: the order of the day); the move of the active file that
+        -- may be left pending is made at once here (the real code makes it before its next append)
+        let o := Store.mergeF true ss.cfg ss.st sel order j torn
+        (o.p.move.1, o.calls ++ o.p.move.2, o.err)
+      | none => let r := merge ss.cfg ss.st order; (r.1, r.2, false)
+    let ss := { ss with mergeFault := none }
     let moved := order.filter fun k =>
       match AL.get k before.keydir with
       | some l => sel.contains l.fid
       | none => false
     let moved := moved.eraseDups
-    let ans := s!"ok sel={joinOr (sel.map toString) ","} order={joinOr (moved.map hexTok) ","}"
+    let ans := (if failed then "err io" else "ok") ++ s!" sel={joinOr (sel.map toString) ","} order={joinOr (moved.map hexTok) ","}"
     some (addCalls { ss with st := s } calls, ans ++ traceSuffix ss calls)
   | ["sync"] =>
     let calls := [Call.fsync ⟨.data, ss.st.active⟩]
